@@ -65,6 +65,11 @@ def judge_trace(ctx, module, tpath, rp_base, describe, maxset=None, classify=Non
         if why.startswith("CERT"):
             raise vlib.Machinery("driver produced an uncertified input (%s) at trace line %d: %s" % (why, line, describe(e)))
         sid = e.get("sid", line)
+        if why.startswith("NOTE"):          # drift: valid but not canonical; never a verdict
+            ctx._notes = getattr(ctx, "_notes", 0) + 1
+            if ctx._notes <= 3:
+                ctx.note("drift (not a violation): %s: %s" % (why, describe(e)[:300]))
+            continue
         if sid in badsids:
             continue
         badsids.add(sid)
